@@ -67,6 +67,25 @@ def enc_event(n):
             "sizeres": sres, "size": size if sres == "ok" else -1, "dump": list(s.getvalue()) if dres == "ok" else [255, 255, 255]}
 
 
+class _ReadOnly:
+    """a stream with read(n) only (plus seek/tell for the harness)"""
+    def __init__(self, b):
+        self._b, self._p = bytes(b), 0
+
+    def read(self, n=-1):
+        if n is None or n < 0:
+            n = len(self._b) - self._p
+        out = self._b[self._p:self._p + n]
+        self._p += len(out)
+        return out
+
+    def seek(self, p):
+        self._p = p
+
+    def tell(self):
+        return self._p
+
+
 def dec_event(args):
     import betterproto as bp
     b, pos, fn = args
@@ -74,7 +93,14 @@ def dec_event(args):
         res, r = _exc(bp.decode_varint, b, pos)
         val, nxt = r if res == "ok" else (0, -1)
     else:
-        s = io.BytesIO(b)
+        # the stream kinds a caller may hand in: in-memory, a buffered reader with a small buffer (a varint may straddle
+        # two buffer fills; peek() returns only what is buffered), and an object that offers nothing but read(n)
+        if fn == "load_buf":
+            s = io.BufferedReader(io.BytesIO(b), buffer_size=4)
+        elif fn == "load_min":
+            s = _ReadOnly(b)
+        else:
+            s = io.BytesIO(b)
         s.seek(pos)
         res, r = _exc(bp.load_varint, s)
         if res == "ok":
@@ -84,6 +110,7 @@ def dec_event(args):
                 nxt = -2          # raw bytes reported differ from what was consumed
         else:
             val, nxt = 0, -1
+    fn = "load" if fn.startswith("load") else fn
     return {"op": "dec", "fn": fn, "b": list(b), "pos": pos, "res": res, "val": av.mag(val) if res == "ok" and val >= 0 else [],
             "next": nxt, "exc": r if res != "ok" else ""}
 
@@ -95,7 +122,8 @@ def _classes():
     if not _CLS:
         fields = [dyn.F("f_" + k, i + 1, k, "optional") for i, k in enumerate(dyn.SCALARS) if k not in ("string", "bytes")]
         fields += [dyn.F("hi_" + k, n, k, "optional") for k, n in (("int32", 16), ("sint64", 2047), ("fixed64", 2048), ("bool", 300000))]
-        schema = {"types": {"S": fields}, "enums": {}}
+        fields.append(dyn.F("f_enum", 40, "enum", "optional", enum="E"))       # an (open) enum is a varint-encoded int32 too
+        schema = {"types": {"S": fields}, "enums": {"E": [["Z", 0], ["A", 1], ["N", -1], ["MIN", -2**31], ["MAX", 2**31 - 1]]}}
         _CLS["schema"] = schema
         _CLS["bp"] = dyn.make_bp(schema)
         _CLS["ref"] = dyn.make_ref(schema)
@@ -238,6 +266,8 @@ def run(ctx):
         ln = rnd.randint(1, 11)
         b = bytes((rnd.getrandbits(8) | (0x80 if rnd.random() < .7 else 0)) for _ in range(ln))
         decs.append((b, rnd.randint(0, max(0, ln - 1)) if rnd.random() < .3 else 0, rnd.choice(["decode", "load"])))
+    # every load case again on a small-buffered reader and on a read()-only stream; long runs of varints back to back
+    decs += [(b, pos, "load_buf") for b, pos, fn in decs if fn == "load"] + [(b, pos, "load_min") for b, pos, fn in decs if fn == "load" and len(b) % 3 == 0]
     for n in ints[:: (7 if quick else 3)]:
         if -(1 << 63) <= n < (1 << 64):
             import betterproto as bp   # canonical encodings as decoder input: produced by the spec-checked encoder events above
